@@ -62,6 +62,31 @@ theorem C16_document (cliDoc fm fmtDoc : DC) :
   · cases cliDoc.totalTimeout <;> cases fm.totalTimeout <;> cases fmtDoc.totalTimeout <;> simp [firstSome]
   · cases cliDoc.shell <;> cases fm.shell <;> cases fmtDoc.shell <;> simp [firstSome]
 
+/-- **C16** (what the command line contributes): the command-line layer sets `output_stream` and `keep_crlf`
+and nothing else, each only when one of its two flags is given, the negative flag winning; without output flags
+(in particular with `--cram-compat` alone, which is not an input of the layer) it is the empty layer, so by
+`C16_scalar` every key then comes from the inline configuration, the document defaults or the format default. -/
+theorem C16_cli_layer (nc c nk k : Bool) :
+    let l := cliLayer nc c nk k
+    l.detached = none ∧ l.skipCode = none ∧ l.stripAnsi = none ∧ l.timeout = none ∧ l.wait = none ∧ l.env = [] ∧
+    (l.outputStream = if nc then some 1 else if c then some 3 else none) ∧
+    (l.keepCrlf = if nk then some 2 else if k then some 1 else none) ∧
+    cliLayer false false false false = TCC.empty := by
+  simp [cliLayer, TCC.empty]
+
+/-- ... and the value in effect under the output flags: the flag if one is given, else the highest layer
+below the command line (`--cram-compat` only swaps `fmt`) -/
+theorem C16_output_flags (nc c nk k : Bool) (inline : TCC) (doc cliDoc : DC) (fmt : TCC) (se : Env)
+    (hcli : cliDoc.defaults = TCC.empty) :
+    let e := effectiveTC (cliLayer nc c nk k) inline doc cliDoc fmt se
+    e.outputStream = firstSome [if nc then some 1 else if c then some 3 else none, inline.outputStream,
+      doc.defaults.outputStream, fmt.outputStream] ∧
+    e.keepCrlf = firstSome [if nk then some 2 else if k then some 1 else none, inline.keepCrlf,
+      doc.defaults.keepCrlf, fmt.keepCrlf] := by
+  intro e
+  have h := C16_scalar (cliLayer nc c nk k) inline doc cliDoc fmt se hcli
+  exact ⟨h.2.2.1, h.2.1⟩
+
 /-! Non-vacuity: a variable bound in the inline configuration and in the defaults. -/
 example : (effectiveTC {} { env := [(1, 10)] } { defaults := { env := [(1, 20), (2, 21)] } } {} {} [(3, 30)]).env.get 1 = some 10 := by
   decide
